@@ -11,8 +11,8 @@ C07 — no input can crash the host; errors are returned and leave the engine us
                             — `SteelThread::execute` (steel_vm/vm.rs): `VmCore::new` (pop_count := 1), the `'outer`
                               loop, the unwind loop (`stack_frames.pop()`, the `pop_count == 0` early return,
                               `pop_count -= 1`, closing the continuation mark with `stack.truncate(last.sp)`, the handler
-                              search, the dummy frame pushed when a handler runs at the top level, `pop_count += 1`,
-                              `stop!` when the handler is not a closure, `stack.clear()`).
+                              search, re-pushing the frame for the handler with `pop_count += 1` (no dummy frame below it
+                              since /repo commit 0ad3663d), `stop!` when the handler is not a closure, `stack.clear()`).
   * `runForms`              — `run_executable`: one `execute` per top-level form, stopping at the first `Err`.
   * `build`                 — `Compiler::compile_raw_program` (snapshot of `compiled_modules`, restored together with
                               `rollback_metadata()` on failure) followed by `Engine::raw_program_to_executable`
@@ -112,9 +112,6 @@ inductive UnwindOut where
   | fail (e : Val) (t : Thread)                      -- `return Err(e)`
   | badHandler (t : Thread)                          -- `stop!(TypeMismatch => "expected a function for the exception handler")`
 
-/-- the frame pushed below the handler when the frame stack is empty ("dummy stack frame if we're at the top") -/
-def dummyFrame (sp : Nat) : Frame := { sp := sp, handler := none, mark := false, ret := [] }
-
 /-- the `while let Some(last) = stack_frames.pop()` loop; `fs` = the frames not yet popped -/
 def unwind (e : Val) (t : Thread) : List Frame → UnwindOut
   | [] => .fail e { t with frames := [], stack := [] }                       -- `self.stack.clear(); return Err(e)`
@@ -126,9 +123,8 @@ def unwind (e : Val) (t : Thread) : List Frame → UnwindOut
       match f.handler with
       | none => unwind e t2 rest
       | some (true, hbody) =>
-        let below := if rest.isEmpty then [dummyFrame f.sp] else rest
         .resume hbody { t2 with stack := t2.stack.take f.sp ++ [e],
-                                frames := { f with handler := none, mark := false } :: below,
+                                frames := { f with handler := none, mark := false } :: rest,
                                 popCount := t2.popCount + 1 }
       | some (false, _) =>
         .badHandler { t2 with stack := t2.stack.take f.sp ++ [e], frames := rest }
